@@ -33,7 +33,8 @@ CLAIMED = {
         technique="Coq refinement proof model = flat ISO 52000-1 spec + golden examples by vm_compute + model/impl correspondence on all fields"),
     "C04": dict(
         text="Machine-checked theorems: EPB use by service (per carrier and building), production by source, "
-             "produced-and-used energy by source split by service, delivered = grid + on-site + cogeneration input, "
+             "produced-and-used energy by source split by service and adding up to the total at every step for values of any "
+             "size (C04_used_by_source_total; needed fix c3bd83b: the code had an absolute 1e-3 kWh guard), delivered = grid + on-site + cogeneration input, "
              "exported = grid + nEPB, weighted energy by service = sum over carriers with EPB use, all add up to their "
              "totals for every component list; per-m2 rows are the absolute rows times 1/area = divided by area "
              "(area >= 0.001), same keys; RER values, k_exp, components and the absolute balance do not depend on the "
